@@ -333,6 +333,11 @@ func checkC09(p *Prog, r *Report) {
 				}
 				nMap++
 				why := mapLoopOrderSensitive(p, fn, rg)
+				// which error a validation walk reports first does not matter where every caller only aborts on it (a genesis import
+				// that panics on an invalid file halts every node alike, whatever the message says)
+				if strings.HasPrefix(why, "the walk returns a value computed from the entry") && errorOnlyAborts(fn, scope) {
+					why = ""
+				}
 				r.Check(why == "", kp("ORDER", FuncName(fn)+"#range-over-map@"+blockTag(fn, b)), "a range over a Go map in block-processing code has an order-insensitive body", p.Pos(rg.Pos()),
 					"keyed writes / validation / map insertion only", "iteration order of the map leaks into consensus: "+why)
 			}
@@ -803,4 +808,58 @@ func sameMapValue(a, b ssa.Value) bool {
 	ua, ok1 := a.(*ssa.UnOp)
 	ub, ok2 := b.(*ssa.UnOp)
 	return ok1 && ok2 && ua.X == ub.X
+}
+
+
+// errorOnlyAborts: fn returns a single error, it is called from the scope, and every in-scope caller only compares the result with
+// nil and panics with it.
+func errorOnlyAborts(fn *ssa.Function, scope []*ssa.Function) bool {
+	res := fn.Signature.Results()
+	if res.Len() != 1 || res.At(0).Type().String() != "error" {
+		return false
+	}
+	n := 0
+	var onlyAbort func(v ssa.Value, depth int) bool
+	onlyAbort = func(v ssa.Value, depth int) bool {
+		refs := v.Referrers()
+		if refs == nil || depth > 3 {
+			return false
+		}
+		for _, u := range *refs {
+			switch x := u.(type) {
+			case *ssa.DebugRef, *ssa.Panic:
+			case *ssa.BinOp:
+				if !(x.Op == token.EQL || x.Op == token.NEQ) || !(isNilConst(x.X) || isNilConst(x.Y)) {
+					return false
+				}
+			case *ssa.MakeInterface:
+				if !onlyAbort(x, depth+1) {
+					return false
+				}
+			case *ssa.ChangeInterface:
+				if !onlyAbort(x, depth+1) {
+					return false
+				}
+			default:
+				return false
+			}
+		}
+		return true
+	}
+	for _, g := range scope {
+		for _, cs := range callSites(g) {
+			if cs.Callee == nil || resolveBound(cs.Callee) != fn {
+				continue
+			}
+			c, ok := cs.Instr.(*ssa.Call)
+			if !ok {
+				return false // deferred or go: the result is dropped, but then the walk is not an abort either
+			}
+			n++
+			if !onlyAbort(c, 0) {
+				return false
+			}
+		}
+	}
+	return n > 0
 }
